@@ -324,36 +324,67 @@ func c16(p *model.Prog, r *report.Result) {
 	r.Rule("C16.R3", "in Group.delIn: rtmp2MpegtsRemuxer.Dispose() precedes stopHlsIfNeeded(); both precede the clearing of patpmt and the GOP caches; customizeHookSessionContext.OnStop(), stopPushIfNeeded(), stopRecordFlvIfNeeded(), stopRecordMpegtsIfNeeded() are called; stopPushIfNeeded disposes every push session")
 	remuxDispose := p.MethodObj("pkg/remux", "Rtmp2MpegtsRemuxer", "Dispose")
 	stopHls := p.MethodObj("pkg/logic", "Group", "stopHlsIfNeeded")
-	rd := model.CallsTo(delIn, remuxDispose)
-	sh := model.CallsTo(delIn, stopHls)
-	if len(rd) != 1 || len(sh) != 1 {
+	// delIn with the same-package helpers it calls inlined (the teardown may be split into
+	// steps): order questions are asked on that view
+	const delInDepth = 2
+	callOf := func(o *types.Func) func(model.DeepInstr) bool {
+		return func(d model.DeepInstr) bool {
+			ci, ok := d.In.(ssa.CallInstruction)
+			return ok && model.SameFunc(model.CalleeObj(ci.Common()), o)
+		}
+	}
+	isRootReturn := func(d model.DeepInstr) bool {
+		_, isRet := d.In.(*ssa.Return)
+		return isRet && len(d.Chain) == 0 && d.Fn == delIn
+	}
+	deepPos := func(pred func(model.DeepInstr) bool) string {
+		pos := p.Pos(delIn.Pos())
+		found := false
+		model.EachInstrDeep(delIn, delInDepth, func(d model.DeepInstr) {
+			if !found && pred(d) {
+				pos, found = p.InstrPos(d.In), true
+			}
+		})
+		return pos
+	}
+	isRD, isSH := callOf(remuxDispose), callOf(stopHls)
+	nRD, nSH := model.CountDeep(delIn, delInDepth, isRD), model.CountDeep(delIn, delInDepth, isSH)
+	if nRD != 1 || nSH != 1 {
 		r.Bad("C16.R3", fkey(delIn, "order", "remuxer-dispose/stop-hls"), p.Pos(delIn.Pos()), "delIn no longer disposes the TS remuxer and stops HLS exactly once each")
 	} else {
 		// no path from stopHls to remuxer dispose, and remuxer dispose reachable before
-		after := model.PathQuery{From: sh[0], Target: func(x ssa.Instruction) bool { return x == rd[0] }}.Find(delIn)
-		before := model.PathQuery{From: rd[0], Target: func(x ssa.Instruction) bool { return x == sh[0] }}.Find(delIn)
-		r.Check(after == nil && before != nil, "C16.R3", fkey(delIn, "order", "flush-audio-before-stop-hls"), p.InstrPos(sh[0]), "pending audio is flushed into the last HLS segment before it is closed", "HLS is stopped before the TS remuxer flushed its pending audio: the tail of the stream is lost from the last segment")
+		after := model.DeepPathQuery{Root: delIn, Depth: delInDepth, From: isSH, Target: isRD}.Find()
+		before := model.DeepPathQuery{Root: delIn, Depth: delInDepth, From: isRD, Target: isSH}.Find()
+		r.Check(after == nil && before != nil, "C16.R3", fkey(delIn, "order", "flush-audio-before-stop-hls"), deepPos(isSH), "pending audio is flushed into the last HLS segment before it is closed", "HLS is stopped before the TS remuxer flushed its pending audio: the tail of the stream is lost from the last segment")
 		for _, fp := range []string{"patpmt", "httptsGopCache", "rtmpGopCache", "httpflvGopCache"} {
-			for _, rs := range resetsIn(delIn, fp) {
-				okO := model.InstrDominates(sh[0], rs)
-				r.Check(okO, "C16.R3", fkey(delIn, "order", "stop-hls-before-clear-"+fp), p.InstrPos(rs), "cleared after the outputs were finalised", fp+" is cleared before the TS/HLS outputs were finalised")
+			isReset := func(d model.DeepInstr) bool {
+				for _, rs := range resetsIn(d.Fn, fp) {
+					if rs == d.In {
+						return true
+					}
+				}
+				return false
+			}
+			// no way from the entry to a reset that does not pass stopHls
+			early := model.DeepPathQuery{Root: delIn, Depth: delInDepth, Stop: isSH, Target: isReset}.Find()
+			n := model.CountDeep(delIn, delInDepth, isReset)
+			for k := 0; k < n; k++ {
+				pos := deepPos(isReset)
+				if early != nil {
+					pos = p.InstrPos(early.In)
+				}
+				r.Check(early == nil, "C16.R3", fkey(delIn, "order", "stop-hls-before-clear-"+fp), pos, "cleared after the outputs were finalised", fp+" is cleared before the TS/HLS outputs were finalised")
 			}
 		}
 	}
 	for _, m := range []string{"stopPushIfNeeded", "stopRecordFlvIfNeeded", "stopRecordMpegtsIfNeeded"} {
-		cs := model.CallsTo(delIn, p.MethodObj("pkg/logic", "Group", m))
-		ok := len(cs) == 1
-		if ok {
-			for _, ret := range model.ReturnsOf(delIn) {
-				if !model.InstrDominates(cs[0], ret) {
-					ok = false
-				}
-			}
-		}
+		isM := callOf(p.MethodObj("pkg/logic", "Group", m))
+		ok := model.CountDeep(delIn, delInDepth, isM) == 1 &&
+			model.DeepPathQuery{Root: delIn, Depth: delInDepth, Stop: isM, Target: isRootReturn}.Find() == nil
 		r.Check(ok, "C16.R3", fkey(delIn, "finalise", m), p.Pos(delIn.Pos()), m+" runs on every path of delIn", m+" is not called on every path of delIn")
 	}
 	onStop := ifaceMethod(p, "pkg/logic", "ICustomizeHookSessionContext", "OnStop")
-	r.Check(len(model.CallsTo(delIn, onStop)) == 1, "C16.R3", fkey(delIn, "finalise", "hook.OnStop"), p.Pos(delIn.Pos()), "the stream hook is told to stop exactly at one site", "the stream hook is not told to stop (or at several sites)")
+	r.Check(model.CountDeep(delIn, delInDepth, callOf(onStop)) == 1, "C16.R3", fkey(delIn, "finalise", "hook.OnStop"), p.Pos(delIn.Pos()), "the stream hook is told to stop exactly at one site", "the stream hook is not told to stop (or at several sites)")
 	spush := p.Method("pkg/logic", "Group", "stopPushIfNeeded")
 	pushDispose := p.MethodObj("pkg/rtmp", "PushSession", "Dispose")
 	r.Check(len(model.CallsTo(spush, pushDispose)) >= 1, "C16.R3", fkey(spush, "finalise", "PushSession.Dispose"), p.Pos(spush.Pos()), "relay push sessions are disposed", "relay push sessions are not closed when the input ends")
